@@ -132,7 +132,8 @@ class TimestampConverter(NullConverter):
 
     @staticmethod
     def to_xml(py_value) -> str:
-        return str(int(py_value * 1000))
+        # round to nearest: int() would truncate, and to_py(n) * 1000 can be slightly smaller than n
+        return str(round(py_value * 1000))
 
     @staticmethod
     def check_valid(py_value):
